@@ -1,7 +1,7 @@
 (* C01 - analytic component derivatives equal the true derivatives.  Property theorems only (statements printed by Coq from the libraries Real/*Deriv.v).  DR g t0 p  :=  g t0 = fst p /\ is_derive g t0 (snd p);  every theorem says: along ANY differentiable curve of the inputs, the dual-number evaluation of the component model gives the value and the derivative - hence every partial derivative (C01_dual_number_tangent_is_the_partial_derivative) and, by composition, every chain of components (part 7) *)
-From Coq Require Import Reals ZArith Lra Lia Arith Bool List.
+From Coq Require Import Reals ZArith Lra Lia Arith Bool List String.
 From Coquelicot Require Import Coquelicot.
-From OAS Require Import Scalar Rops Sums Deriv Dual DualProofs Drag DragDeriv Stress StressDeriv StressProofs Transfer TransferDeriv Loads LoadsDeriv Functionals FunctionalsDeriv Aero AeroDeriv PG PGDeriv Beam BeamTables BeamDeriv Geom GeomDeriv Misc MiscDeriv.
+From OAS Require Import Scalar Rops Sums Deriv Dual DualProofs Drag DragDeriv Stress StressDeriv StressProofs Transfer TransferDeriv Loads LoadsDeriv Functionals FunctionalsDeriv Aero AeroDeriv PG PGDeriv Beam BeamTables BeamDeriv Geom GeomDeriv Misc MiscDeriv MultiSec MultiSecDeriv.
 Open Scope R_scope.
 
 Theorem C01_Transform :
@@ -59,10 +59,8 @@ Print Assumptions C01_Taper.
 
 (* what the special case of the unrepaired compute_partials returned (0) was wrong (fixed finding F01) *)
 Theorem C01_Taper_partial_at_one_is_not_zero :
-  exists dv : Hierarchy.NormedModule.sort Hierarchy.R_AbsRing Hierarchy.R_NormedModule,
-    Derive.is_derive
-      (fun t : Hierarchy.AbsRing.sort Hierarchy.R_AbsRing => taper_mesh 1 1 true (1 / 4) t taper_ex_mesh 1 0 0)
-      1 dv /\ dv <> 0.
+  exists dv : R_NormedModule,
+    is_derive (fun t : R_AbsRing => taper_mesh 1 1 true (1 / 4) t taper_ex_mesh 1 0 0) 1 dv /\ dv <> 0.
 Proof. exact taper_partial_at_one_nonzero. Qed.
 Print Assumptions C01_Taper_partial_at_one_is_not_zero.
 
